@@ -40,15 +40,20 @@ def scaled(v):
 class Session:
     """one harness run + one checker run over a list of LPs"""
 
+    _n = 0
+
     def __init__(self, ck, exe, model):
         self.ck, self.exe, self.model = ck, exe, model
+        Session._n += 1
+        self.tag = "%s-%d" % (ck.pid, Session._n)
+        self.checker_failed = False
 
     # ---- step 1: exact classification (SoPlex exact mode as untrusted producer, proved checker as judge)
     def classify(self, lps):
         txt = ""
         for k, p in enumerate(lps):
             txt += p.text(str(k)) + "\nEXACT\n"
-        rc, out, err = lpgen.run_harness(self.exe, txt, self.ck.pid + "-exact")
+        rc, out, err = lpgen.run_harness(self.exe, txt, self.tag + "-exact")
         B = lpgen.blocks(out)
         q = ""
         exs = {}
@@ -86,14 +91,15 @@ class Session:
     def _ask(self, q, tag):
         d = os.path.join(vlib.BUILD, "run")
         os.makedirs(d, exist_ok=True)
-        f = os.path.join(d, "%s-%s.%d.q" % (self.ck.pid, tag, os.getpid()))
+        f = os.path.join(d, "%s-%s.%d.q" % (self.tag, tag, os.getpid()))
         with open(f, "w") as fh:
             fh.write(q)
         rc, out, err = vlib.sh([self.model, f], timeout=3000)
         if not os.environ.get("VERIF_KEEP"):
             os.remove(f)
         if rc != 0:
-            self.ck.violation("checker-crash", "extracted checker failed: " + err[-300:], {"kind": "model"}, no_input=True)
+            self.checker_failed = True
+            self.ck.violation("checker-crash", "extracted checker failed (rc=%d): %s" % (rc, err[-300:]), {"kind": "model"}, no_input=True)
         return lpgen.blocks(out)
 
     # ---- step 2: floating-point runs
@@ -103,7 +109,7 @@ class Session:
             txt += p.text(str(k)) + "\n"
             for c, cfg in enumerate(cfgs[k]):
                 txt += "RUN %d %s\n" % (c, lpgen.cfg_text(cfg))
-        rc, out, err = lpgen.run_harness(self.exe, txt, self.ck.pid + "-run")
+        rc, out, err = lpgen.run_harness(self.exe, txt, self.tag + "-run")
         B = lpgen.blocks(out)
         runs = {}
         for k in range(len(lps)):
@@ -211,3 +217,31 @@ def replay_of(p, cfg, ru, extra=None):
     if extra:
         d.update(extra)
     return d
+
+
+def run_in_chunks(ck, exe, model, lps, cfgs, chunk=60, workers=8):
+    """classify + run + judge in parallel chunks; returns per-LP dicts keyed by the global LP index.
+    A chunk whose checker run failed is dropped from judgement (reported once as checker-crash)."""
+    import concurrent.futures as cf
+    idx = list(range(len(lps)))
+    parts = [idx[a:a + chunk] for a in range(0, len(idx), chunk)]
+
+    def work(part):
+        S = Session(ck, exe, model)
+        sub = [lps[k] for k in part]
+        subcfg = {j: cfgs[k] for j, k in enumerate(part)}
+        classes, exs = S.classify(sub)
+        runs, rc, crashed = S.run(sub, subcfg)
+        ans = S.judge_queries(sub, runs)
+        return part, classes, exs, runs, rc, crashed, ans, S.checker_failed
+
+    classes, exs, runs, ans, crashes, skipped = {}, {}, {}, {}, [], set()
+    with cf.ThreadPoolExecutor(max_workers=workers) as ex:
+        for part, c, e, r, rc, crashed, a, failed in ex.map(work, parts):
+            for j, k in enumerate(part):
+                classes[k], exs[k], runs[k], ans[k] = c[j], e[j], r[j], a[j]
+                if failed:
+                    skipped.add(k)
+            if crashed is not None:
+                crashes.append((part[crashed[0]], crashed[1], rc))
+    return classes, exs, runs, ans, crashes, skipped
